@@ -20,6 +20,16 @@ ASSUMPTIONS = ["subtotals here are plain (no subtrahends): differences belong to
 TRUSTED = ["numpy"]
 
 REG = std_pairings(Reg())
+# SQUARE tables with per-item bases on the columns (a base vector that could be read along the wrong axis)
+from mc import schemas as _S   # noqa: E402
+from mc.common2d import subtotal as _subtotal   # noqa: E402
+from mc.model import Schema as _Schema   # noqa: E402
+REG.add(_S.schema2("cat3_x_mr3_square", _S.cat("a", 3, "mid"), _S.mr("m", 3), weighted=True), (1, 2), configs=[{}],
+        quick=2, thorough=2)
+REG.add(_S.schema2("cat2sub_x_mr3_square", _S.cat("a", 2, "last"), _S.mr("m", 3)), configs=[
+        {"rows": [_subtotal("r12", [1, 2], anchor="bottom", sid=1)]}], quick=2, thorough=3)
+_CA33 = _S.ca("q", 3, 3, "last")
+REG.add(_Schema("ca_cats3_x_items3_square", [_CA33], [("ca_cats", 0), ("ca_items", 0)]), configs=[{}], quick=2, thorough=2)
 SCHEMAS = REG.schemas
 
 
